@@ -576,7 +576,37 @@ class SLin:
         return SInt(out).n()
 
     def __eq__(self, o):
+        if len(self.t) > 12 and isinstance(o, (int, _np.integer)):
+            return self._cmp("eq", o)
         return self.to_sint() == o
+
+    def _cmp(self, op, o):
+        """comparison of a wide sum with a constant: word-level (z3 Int) instead of comparator polynomials"""
+        import z3 as _z3
+        from .arith import from_lin
+        from .zint import zbool
+
+        t = from_lin(self).term
+        o = int(o)
+        if self.t and all(c > 0 for c in self.t.values()):  # interval reasoning first
+            lo, hi = self.k, self.bound()
+            if op == "le" and hi <= o or op == "lt" and hi < o or op == "ge" and lo >= o or op == "gt" and lo > o:
+                return True
+            if op == "le" and lo > o or op == "lt" and lo >= o or op == "ge" and hi < o or op == "gt" and hi <= o or op == "eq" and not lo <= o <= hi:
+                return False
+        return zbool({"le": t <= o, "lt": t < o, "ge": t >= o, "gt": t > o, "eq": t == o}[op])
+
+    def __le__(self, o):
+        return self._cmp("le", o) if isinstance(o, (int, _np.integer)) else NotImplemented
+
+    def __lt__(self, o):
+        return self._cmp("lt", o) if isinstance(o, (int, _np.integer)) else NotImplemented
+
+    def __ge__(self, o):
+        return self._cmp("ge", o) if isinstance(o, (int, _np.integer)) else NotImplemented
+
+    def __gt__(self, o):
+        return self._cmp("gt", o) if isinstance(o, (int, _np.integer)) else NotImplemented
 
     def __hash__(self):
         raise OutOfReach("hash of symbolic int")
